@@ -1,6 +1,8 @@
 package providers
 
 import (
+	"time"
+
 	"github.com/buzzfeed/sso/internal/pkg/groups"
 	"github.com/buzzfeed/sso/internal/pkg/sessions"
 	zz "github.com/buzzfeed/sso/internal/zzverif"
@@ -9,6 +11,7 @@ import (
 func init() {
 	VerifHarnesses["VerifC17GroupCache"] = VerifC17GroupCache
 	VerifHarnesses["VerifC17Membership"] = VerifC17Membership
+	VerifHarnesses["VerifC17PopulateMembers"] = VerifC17PopulateMembers
 }
 
 // verifDirectory is the provider behind the Okta-path GroupCache: every question gets a fresh
@@ -208,4 +211,67 @@ func VerifC17Membership() {
 	}
 	want = admin.answer()
 	zz.Assert(err == nil && verifSameStrings(got, want), "C17."+name+": a partly cached question is answered with exactly what the directory says")
+}
+
+// ---- the fill function the authenticator really installs (options.go: NewFillCache(p.PopulateMembers, ...)) ----
+
+type verifListAdmin struct {
+	outcome int // 0 = a member list, 1 = directory error, 2 = group not found
+	serial  int
+}
+
+func (a *verifListAdmin) list() ([]string, error) {
+	a.serial++
+	switch a.outcome {
+	case 1:
+		return nil, ErrServiceUnavailable
+	case 2:
+		return nil, groups.ErrGroupNotFound
+	}
+	return []string{"member-" + string(rune('0'+a.serial)) + "@example.com"}, nil
+}
+func (a *verifListAdmin) ListMemberships(string, int) ([]string, error)      { return a.list() }
+func (a *verifListAdmin) CheckMemberships([]string, string) ([]string, error) { return nil, nil }
+
+type verifCognitoListAdmin struct{ *verifListAdmin }
+
+func (a verifCognitoListAdmin) ListMemberships(string) ([]string, error)   { return a.list() }
+func (a verifCognitoListAdmin) CheckMemberships(string) ([]string, error)  { return nil, nil }
+func (a verifCognitoListAdmin) GlobalSignOut(*sessions.SessionState) error { return nil }
+
+// VerifC17PopulateMembers: the real FillCache filled by the real PopulateMembers of the Google /
+// Cognito provider (the pairing options.go sets up), the admin service scripted at its interface:
+// a first successful fill, then a second fill whose directory call returns a list, fails, or
+// reports the group missing.
+func VerifC17PopulateMembers() {
+	admin := &verifListAdmin{}
+	var fill groups.FillFunc
+	if zz.NondetBool("cognito") {
+		p := &AmazonCognitoProvider{ProviderData: verifProviderData(), AdminService: verifCognitoListAdmin{admin}}
+		fill = p.PopulateMembers
+	} else {
+		p := &GoogleProvider{ProviderData: verifProviderData(), AdminService: admin}
+		fill = p.PopulateMembers
+	}
+	cache := groups.NewFillCache(fill, time.Minute)
+	zz.Assert(cache.Update("group-a"), "C17.a successful first fill reports an update")
+	ms, found := cache.Get("group-a")
+	_, has := ms["member-1@example.com"]
+	zz.Assert(found && has && len(ms) == 1, "C17.the first fill caches the directory's member list")
+	admin.outcome = zz.Choose("second.fill.outcome", 3)
+	updated := cache.Update("group-a")
+	ms, found = cache.Get("group-a")
+	switch admin.outcome {
+	case 0:
+		zz.Reach("second-fill-members")
+		_, has = ms["member-2@example.com"]
+		zz.Assert(updated && found && has && len(ms) == 1, "C17.a successful fill replaces the member list with the latest one (provider fill function)")
+	case 1:
+		zz.Reach("second-fill-error")
+		_, has = ms["member-1@example.com"]
+		zz.Assert(!updated && found && has && len(ms) == 1, "C17.a failed fill keeps the previous list (provider fill function)")
+	case 2:
+		zz.Reach("second-fill-not-found")
+		zz.Assert(!updated && !found, "C17.a group the directory reports missing is dropped (provider fill function)")
+	}
 }
